@@ -5,17 +5,30 @@ every infix operator = the scalar multivector, list/tuple operands give the sequ
 order, nested zero-argument callables are unwrapped, operand order of reflected operators with
 NON-commuting operands.  The operand-order table itself is re-derived from the source and proved in
 Props/C16.v; the element-wise clause is the naturality theorem (Theory/Natural.v) for the evaluation
-homomorphism of the pointwise ring."""
+homomorphism of the pointwise ring.  The storage / indexing / assignment logic and the operand normalisation of
+OperatorDict._call_binary are modelled in Model/Storage.v (theorems: Theory/Storage.v) and compared with the
+implementation INSIDE Coq (storage_part): list-backed and ndarray-backed multivectors x subscripts x assigned
+values -> result or exception class and final storage; operand trees on either side of gp/op/add/sub -> nesting
+of the result and every coefficient."""
 import warnings, itertools
 import kv, algs, opcorr as oc
 
 RULE = ('operators (infix, reflected, method, unary) x trailing shapes (), (3,), (2,3) x containers (list of arrays, 2-D/3-D ndarray) x '
         'index expressions (int, negative int, slice, tuple) x operand kinds on either side (int, float, numpy scalar, list, tuple, '
         'nested callable); integer/float values.  Non-trivial = an array-valued, sequence, callable or number operand is involved; '
-        'distinct = distinct (clause, operator, shapes, operand kinds).')
+        'distinct = distinct (clause, operator, shapes, operand kinds).  Model correspondence: storage kinds (list of arrays, ragged / mixed '
+        'lists with python and numpy numbers, 1-D and 2-D ndarray, 0..4 keys, trailing axis 0..4) x subscripts (int incl. negative and out of '
+        'range, slices with None / negative / out-of-range bounds and steps incl. 0, tuples of length 0, 1, 2) x right-hand sides (multivector '
+        'with aligned / number / misaligned coefficients in either storage kind, other keys, raw sequences of other lengths, plain number); '
+        'operand trees of depth <= 3 over numbers, multivectors (own and foreign algebra), lists, tuples, nested callables, call and infix form.')
 TRUSTED = ['numpy broadcasting itself is not modelled: the pointwise ring idx -> R is the assumption of the element-wise theorem',
-           'Gen/Dunder.v (translator) for the operand-order table']
-ASSUMPTIONS = ['numeric comparison exact for integer-valued float arrays (all generated values are small integers stored as floats)']
+           'Gen/Dunder.v (translator) for the operand-order table',
+           'hand-written model coq/Model/Storage.v of __getitem__/__setitem__/shape/itermv/items/map and _call_binary/__call__ (numpy 1-D/2-D '
+           'integer and slice subscripts, 1-D assignment broadcast): tied by this correspondence only (no source pin)',
+           'python operator dispatch (which dunder an infix expression reaches) is not modelled: the model starts at algebra.op(left, right)']
+ASSUMPTIONS = ['numeric comparison exact for integer-valued float arrays (all generated values are small integers stored as floats)',
+               'storage model: one trailing axis; results are values (no aliasing between X, X[idx] and the assigned V); one dtype (int64)',
+               'callables are pure and take no argument']
 
 INFIX = {'+': 'add', '-': 'sub', '*': 'gp', '^': 'op', '|': 'ip', '&': 'rp', '>>': 'sw', '@': 'proj', '/': 'div'}
 PY = {'+': lambda a, b: a + b, '-': lambda a, b: a - b, '*': lambda a, b: a * b, '^': lambda a, b: a ^ b,
@@ -194,6 +207,8 @@ def run(R, tier):
                 if not same(got, want):
                     viol('callable-operand', f'a nested callable on the {side} of {sym} is not replaced by its value with the operand order kept',
                          algebra=spec, op=sym, side=side)
+
+    storage_part(R, tier)
 
 
 # ======================================================================================================
@@ -790,11 +805,36 @@ def storage_part(R, tier):
                         f'{m["clause"]}: implementation {m["impl"]} differs from the model (Model/Storage.v) on {({k: v for k, v in m.items() if k not in ("impl", "clause")})}'[:900])
 
 
+def replay_storage(R, rec):
+    """re-run one case of storage_part: the direct oracle on the implementation, then the model inside Coq"""
+    r = rec['replay']
+    cl = r.get('clause', rec['class']['clause'])
+    defs = []
+    if cl == 'operand-normalisation':
+        spec = r['algebra']
+        algs2 = (algs.make_impl(spec), algs.make_impl({'sig': [(-1 if s == 1 else 1) for s in spec['sig']]}))
+        c, oracle = operand_case(algs.AlgPool(), spec, algs2, r['op'], r['left'], r['right'], r['form'])
+    else:
+        alg = algs.make_impl({'sig': [1, 1, 1]})
+        if cl == 'storage-getitem':
+            c, oracle = getitem_case(alg, r['keys'], r['X'], item_dec(r['item']))
+        elif cl == 'storage-setitem':
+            c, oracle = setitem_case(alg, r['keys'], r['X'], item_dec(r['item']), r['V'], r['mode'])
+        else:
+            c, oracle = misc_case(alg, r['keys'], r['X'], cl[len('storage-'):]), None
+    if oracle:
+        return False
+    bad, _ = kv.run_cases('C16r', [dict(c, check=c.get('coarse') or c['check'])], imports='Model.All Model.Storage')
+    return not bad
+
+
 def replay(R, rec):
     warnings.filterwarnings('ignore')
     import numpy as np
     from kingdon import MultiVector
     r = rec['replay']
+    if isinstance(r, dict) and str(r.get('clause', '')).startswith(('storage-', 'operand-normalisation')):
+        return replay_storage(R, rec)
     alg = algs.make_impl(r['algebra'])
     cl = rec['class']['clause']
     if cl == 'sequence-operand':
